@@ -232,6 +232,15 @@ func jobsFor(prop, tier string) []*Job {
 			add(&Job{Name: fmt.Sprintf("O3-decision-and-effects/k=2,depth=2,part=%d", part), Pkg: "cbreaker", Harness: "VerifC05History", Params: p("k", 2, "depth", 2, "part", part, "parts", 4),
 				Bounds: "history harness of C05: evaluated exactly when the check period is over, trips iff the evaluated condition is true, trip resets the metrics once, on-tripped / on-standby effects run once per transition"})
 		}
+	case "C09":
+		bd := "lockset analysis on the real SSA: each pair of entry points is executed from the same instance with every read/write of a shared cell or map logged together with the mutexes held (and their mode); a conflicting pair of accesses without a common excluding lock is a data race of two goroutines; 2 goroutines"
+		add(&Job{Name: "metrics", Pkg: "memmetrics", Harness: "VerifC09Metrics", Grid: 1e9, Bounds: bd})
+		add(&Job{Name: "roundrobin", Pkg: "roundrobin", Harness: "VerifC09Balancers", Grid: 1e9, Bounds: bd})
+		add(&Job{Name: "rebalancer", Pkg: "roundrobin", Harness: "VerifC09Rebalancer", Grid: 1e9, Bounds: bd})
+		add(&Job{Name: "connlimit", Pkg: "connlimit", Harness: "VerifC09ConnLimiter", Bounds: bd})
+		add(&Job{Name: "ratelimit", Pkg: "ratelimit", Harness: "VerifC09TokenLimiter", Grid: 1e9, Bounds: bd})
+		add(&Job{Name: "cbreaker", Pkg: "cbreaker", Harness: "VerifC09Breaker", Grid: 1e9, Bounds: bd})
+		add(&Job{Name: "ttlmap", Pkg: "internal/holsterv4/collections", Harness: "VerifC09TTLMap", Grid: 1e9, Params: p("t0span", 3), Bounds: bd})
 	}
 	return js
 }
